@@ -16,7 +16,9 @@ import (
 
 // TokenSafe atoms (no blank, quote, backslash, braces, parentheses): `_` and `%` are SQL LIKE wildcards, case twins,
 // names that are prefixes of each other, INBOX look-alikes
-var atoms = []string{"a", "A", "a_b", "axb", "a%b", "aqqb", "foo", "FOO", "Foo", "ab", "b", "inbox", "Inbox", "INBOXX", "sent", "Sent", "Trash", "x-y", "x.y", "é", "_", "%"}
+var atoms = []string{"a", "A", "a_b", "axb", "a%b", "aqqb", "foo", "FOO", "Foo", "ab", "b", "inbox", "Inbox", "INBOXX", "sent", "Sent", "Trash", "x-y", "x.y", "é", "_", "%",
+	// `?`, `*` and `[...]` are GLOB wildcards; each with a name it would match as a pattern
+	"Q?", "QA", "[L]", "L", "[a-c]", "a*", "a?b"}
 
 func genName(rng *hx.Rng, made []string) string {
 	if len(made) > 0 && rng.Chance(55) {
